@@ -109,6 +109,7 @@ func init() {
 		fs := flag.NewFlagSet("c14slen", flag.ExitOnError)
 		gpath := fs.String("graph", "", "graph json")
 		out := fs.String("out", "-", "trace")
+		dialect := fs.String("dialect", "schema", "schema | enum")
 		fs.Parse(args)
 		var g graph
 		data, err := os.ReadFile(*gpath)
@@ -134,7 +135,7 @@ func init() {
 						continue
 					}
 					seen[text] = true
-					lo := callLen("schema", text)
+					lo := callLen(*dialect, text)
 					if strings.HasPrefix(lo.Msg, "panic") {
 						panics++
 					}
